@@ -23,7 +23,9 @@ def make_types(rng, kind, nvars):
     for _ in range(nvars):
         if kind == "real":
             lo = rng.choice([0.0, -5.0, 0.25, 1e-3, -1e6, 2.0])
-            ts.append(("real", lo, lo + rng.choice([1e-9, 1e-3, 0.5, 1.0, 3.0, 1e6])))
+            # (ranges whose width hi - lo is not a finite double are out of scope: the library cannot even draw an initial value for
+            # them -- Real.rand() = random.uniform(lo, hi) returns inf or NaN --, see DESIGN.md 9.5)
+            ts.append(("real", lo, lo + rng.choice([1e-9, 1e-3, 0.5, 1.0, 3.0, 1e6, 1e300])))
         elif kind == "binary":
             ts.append(("binary", rng.choice([1, 2, 5, 8])))
         elif kind == "int":
@@ -50,6 +52,10 @@ def rand_value(rng, t, ptype, like=None):
         return copy.deepcopy(like)
     if t[0] == "real":
         lo, hi = t[1], t[2]
+        if not math.isfinite(hi - lo):
+            # the width is not a finite double: ordinary finite in-bounds parents (never computed through hi - lo)
+            c = [v for v in (0.0, 1.0, -3.5, 2.5, 1e300, -1e300, 1e308, -1e308, 123456.789, -0.25) if lo <= v <= hi]
+            return rng.choice(c)
         return rng.choice([lo, hi, lo + (hi - lo) * rng.random(), lo + (hi - lo) * rng.random(), (lo + hi) / 2,
                            math.nextafter(lo, hi), math.nextafter(hi, lo)])
     if t[0] == "binary":
@@ -76,7 +82,7 @@ def make_parents(rng, p, ts, k, special=None):
         for i in range(len(ts)):
             vals = [q.variables[i] for q in ps[:-1]]
             # last parent exactly at the centroid of all k parents: x_k = mean of the others
-            ps[-1].variables[i] = sum(vals) / len(vals)
+            ps[-1].variables[i] = sum(vals) / len(vals) if math.isfinite(sum(vals)) else vals[0]
     return ps
 
 
@@ -326,7 +332,7 @@ def run(ctx, drv):
                            "(on the bounds, identical, last parent at the centroid, widths 1e-9..1e6); scripted random stream with 0-30% "
                            "extreme outcomes (end points of uniform incl. the upper end, first/last index, +-8 sigma); exhaustive: all "
                            "permutations of <= 4 elements x all position pairs for Swap/Insertion/PMX, all subsets for SSX/Replace of "
-                           "<= 5 elements. non-trivial = some offspring differs from every parent; distinct by (operator, parents, tape)")
+                           "<= 5 elements. non-trivial = some offspring differs from every parent; distinct by (operator, parents, tape) + mixed-type problems for every type-aware operator and the documented compound recipes; clip against the model including NaN and infinities")
     reqs, post = [], []
 
     def ask(line, fn):
@@ -404,6 +410,26 @@ def run(ctx, drv):
                         run_case(ctx, ask, rng, "subset", op, ts, p, ps, note="exhaustive")
                         nex += 1
     ctx.count("exhaustive_discrete_cases", nex)
+    # ---- the shared helper every real-valued operator ends with: clip(value, lo, hi) with Python's min / max, also for the values
+    # that only arise from overflowing intermediates (NaN, infinities): NaN is mapped to the lower bound
+    from platypus import _math as M_
+    from common import wf as _wf, bits2f as _b2f
+    specials = [float("nan"), float("inf"), -float("inf"), 0.0, -0.0, 1.0, -1.0, 5e-324, 1e308, -1e308, 0.5, 2.5]
+    for _ in range(400 if ctx.quick() else 5000):
+        lo = rng.choice(specials[1:] + [rng.uniform(-5, 5)])
+        hi = rng.choice([lo, lo + 1.0, rng.choice(specials[1:])])
+        v = rng.choice(specials + [rng.uniform(-10, 10), lo, hi])
+        got = call(M_.clip, v, lo, hi)
+        inp = {"value": repr(v), "lo": repr(lo), "hi": repr(hi)}
+        ask(f"clipF {_wf(v)} {_wf(lo)} {_wf(hi)}", lambda g, got=got, inp=inp: None if (isinstance(got, float) and (_b2f(g.split()[1]) == got or (got != got and _b2f(g.split()[1]) != _b2f(g.split()[1])))
+                                                                                      and (got != 0 or math.copysign(1, got) == math.copysign(1, _b2f(g.split()[1]))))
+            else ctx.disagree("_math.clip vs pyClip (Python min / max semantics, NaN to the lower bound)", inp, repr(got), g))
+        if isinstance(got, float) and lo <= hi and got == got and not (lo <= got <= hi):
+            ctx.fail("clip-outside-bounds", inp, got, f"in [{lo}, {hi}]", "_math.clip")
+        if isinstance(got, float) and got != got and lo == lo:
+            ctx.fail("clip-returns-nan", inp, repr(got), "a bound (never NaN for non-NaN bounds)", "_math.clip")
+            ctx.failures[-1]["input_class"] = "clip-nan"
+    ctx.count("clip_cases", 400 if ctx.quick() else 5000)
     if drv.ok:
         out = drv.batch([r for r in reqs])
         for g, fn in zip(out, post):
